@@ -429,7 +429,7 @@ theorem accept_all_at_least_as_many_any_order {c : Config α} {g : List α}
 /-! ## which failures propagate -/
 
 /-- (after the repairs `ksp/single-via-reverse-search-failed`, `ksp/single-via-alternative-failed`
-and the C10 repair 7780888) with consistent adjacency and distinct origin and destination
+and the C10 repair 37e54f7) with consistent adjacency and distinct origin and destination
 single-via fails only with **the forward search's error** — the query is then not answerable by the
 underlying search either —, with **the reverse search stopped by a limit of the termination model**
 (C10: a limit hit by any sub-search is the explicit `terminated` error, never a shortened answer;
